@@ -260,6 +260,7 @@ class Task(object):
         self.blocked_on = None
         self.ident = None
         self.thread = None
+        self.fin = None         # raw threads: released when the body is over
         self.error = None
         self.steps = 0
         self.nlocks = 0         # simulated locks currently held
@@ -337,7 +338,16 @@ class Scheduler(object):
     def run(self):
         self._plan()
         K.sched = self
+        raw = bool(self.strategy.get("raw"))
         for t in self.tasks:
+            if raw:
+                # started with the low-level API, as C extensions, embedding
+                # hosts and some pools do: such threads are NOT listed by the
+                # threading module (active_count() stays 1)
+                t.fin = _real_thread.allocate_lock()
+                t.fin.acquire()
+                _real_thread.start_new_thread(self._body, (t,))
+                continue
             th = threading.Thread(target=self._body, args=(t,), daemon=True)
             t.thread = th
             th.start()
@@ -350,7 +360,10 @@ class Scheduler(object):
         if self.verdict is not None:
             raise Finish(self.verdict)
         for t in self.tasks:
-            t.thread.join()
+            if t.fin is not None:
+                t.fin.acquire()
+            else:
+                t.thread.join()
         for t in self.tasks:
             if t.error is not None:
                 raise t.error
@@ -368,6 +381,9 @@ class Scheduler(object):
             self._task_done(task)
         except SimAbort:
             pass
+        finally:
+            if task.fin is not None:
+                task.fin.release()
 
     def _task_done(self, task):
         task.state = "done"
